@@ -10,7 +10,7 @@ woken: it raises Blocked, which is the observation "the call hangs".
 
 Only module attributes / instance attributes are rebound (condition variables are replaced by an
 instrumented subclass, receive queues by a logging deque, llc.random by a scripted chooser);
-no source hook.  Everything is deterministic: the main thread waits until a helper is either
+no source hook.  All calls are made through nfc.llcp.socket.Socket objects (the application handle).  Everything is deterministic: the main thread waits until a helper is either
 finished or inside wait().
 """
 import collections
@@ -20,6 +20,7 @@ import time
 
 import nfc.llcp
 import nfc.llcp.llc as L
+import nfc.llcp.socket as SK
 import nfc.llcp.pdu as P
 import nfc.llcp.tco as T
 
@@ -206,14 +207,18 @@ class Side(object):
         self.sd = self.llc.sap[1]
         self.sd.resp = ICond(self.llc.lock)
         self.socks = []                 # id -> tco object
+        self.wraps = []                 # id -> nfc.llcp.socket.Socket wrapping it (the application's handle)
+        self.anon = SK.Socket(self.llc, None)   # handle without transmission object (resolve, invalid ids)
         self.ids = {}                   # id(tco) -> id
         self.pending = {}               # sid -> Pending (connect / close)
         self.resolving = []             # Pending resolve calls, oldest first
         self.enqlog = []
 
-    def adopt(self, tco):
+    def adopt(self, wrap):
+        tco = wrap._tco
         sid = len(self.socks)
         self.socks.append(tco)
+        self.wraps.append(wrap)
         self.ids[id(tco)] = sid
         tco.recv_ready = ICond(tco.lock)
         tco.send_ready = ICond(tco.lock)
@@ -224,6 +229,14 @@ class Side(object):
 
     def sock(self, i):
         return self.socks[i] if 0 <= i < len(self.socks) else object()
+
+    def wrap(self, i):
+        """the Socket object of id i; for an id that does not exist a Socket around something that is no socket"""
+        if 0 <= i < len(self.wraps):
+            return self.wraps[i]
+        w = SK.Socket(self.llc, None)
+        w._tco = object()
+        return w
 
     # ---- digest (same text as extract/c17_run.ml)
     def digest(self):
@@ -325,38 +338,44 @@ class Pair(object):
         S = self.side[sd]
         llc = S.llc
         if kind == 'socket':
-            tco = llc.socket(TYPES[op[2]])
-            return 'ok sock %d' % S.adopt(tco)
+            return 'ok sock %d' % S.adopt(SK.Socket(llc, TYPES[op[2]]))
         i = op[2] if kind != 'resolve' else None
         s = S.sock(i) if i is not None else None
+        w = S.wrap(i) if i is not None else None
         busy = i in S.pending
         if kind == 'bind':
             arg = op[3]
             if arg == 'none':
-                r = classify(lambda: llc.bind(s))
+                r = classify(lambda: w.bind())
+            elif arg == 'None':
+                r = classify(lambda: w.bind(None))
             elif arg == 'bad':
-                r = classify(lambda: llc.bind(s, 1.5))
+                r = classify(lambda: w.bind(1.5))
             elif arg[0] == 'a':
-                r = classify(lambda: llc.bind(s, arg[1]))
+                r = classify(lambda: w.bind(arg[1]))
+            elif arg[0] == 's':                      # service name given as str
+                r = classify(lambda: w.bind(bytes(arg[1]).decode('latin')))
+            elif arg[0] == 'ba':                     # ... as bytearray
+                r = classify(lambda: w.bind(bytearray(arg[1])))
             else:
-                r = classify(lambda: llc.bind(s, bytes(arg[1])))
+                r = classify(lambda: w.bind(bytes(arg[1])))
             return fmt(r, 'unit')
         if kind == 'getsockname':
-            r = classify(lambda: llc.getsockname(s))
+            r = classify(lambda: w.getsockname())
             if r[0] == 'ok':
                 return 'ok unit' if r[1] is None else 'ok val %d' % r[1]
             return fmt(r, None)
         if kind == 'rawsend':
             pdu = pdu_from_text(op[3])
-            r = classify(lambda: llc.sendto(s, pdu, None, nfc.llcp.MSG_DONTWAIT))
+            r = classify(lambda: w.sendto(pdu, None, nfc.llcp.MSG_DONTWAIT))
             return fmt(r, 'bool')
         if kind == 'rcvbuf':
-            r = classify(lambda: llc.setsockopt(s, nfc.llcp.SO_RCVBUF, op[3]))
+            r = classify(lambda: w.setsockopt(nfc.llcp.SO_RCVBUF, op[3]))
             return fmt(r, 'val')
         if kind == 'resolve':
             nm = bytes(op[2])
             CHOOSER.k = op[3]
-            p, r = S.start_pending('resolve', None, S.sd.resp, lambda: llc.resolve(nm), nm)
+            p, r = S.start_pending('resolve', None, S.sd.resp, lambda: S.anon.resolve(nm), nm)
             if r is None:
                 S.resolving.append(p)
                 return 'ok pending'
@@ -364,11 +383,11 @@ class Pair(object):
         if busy:
             return 'ok busy'
         if kind == 'listen':
-            return fmt(classify(lambda: llc.listen(s, op[3])), 'unit')
+            return fmt(classify(lambda: w.listen(op[3])), 'unit')
         if kind == 'accept':
             if isinstance(s, T.DataLinkConnection) and s.state.LISTEN and len(s.recv_queue) == 0:
                 return 'ok block'
-            r = classify(lambda: llc.accept(s))
+            r = classify(lambda: w.accept())
             if r[0] == 'ok':
                 return 'ok sock %d' % S.adopt(r[1])
             return fmt(r, None)
@@ -376,16 +395,16 @@ class Pair(object):
             dest = op[3]
             dest = dest[1] if dest[0] == 'a' else bytes(dest[1])
             if isinstance(s, T.DataLinkConnection):
-                p, r = S.start_pending('connect', i, s.recv_ready, lambda: llc.connect(s, dest))
+                p, r = S.start_pending('connect', i, s.recv_ready, lambda: w.connect(dest))
                 if r is None:
                     S.pending[i] = p
                     return 'ok pending'
                 return fmt(r, 'unit')
-            return fmt(classify(lambda: llc.connect(s, dest)), 'unit')
+            return fmt(classify(lambda: w.connect(dest)), 'unit')
         if kind == 'sendto':
-            return fmt(classify(lambda: llc.sendto(s, bytes(op[3]), op[4], nfc.llcp.MSG_DONTWAIT)), 'bool')
+            return fmt(classify(lambda: w.sendto(bytes(op[3]), op[4], nfc.llcp.MSG_DONTWAIT)), 'bool')
         if kind == 'recvfrom':
-            r = classify(lambda: llc.recvfrom(s))
+            r = classify(lambda: w.recvfrom())
             if r[0] == 'hang':
                 return 'ok block'
             if r[0] == 'ok':
@@ -400,12 +419,12 @@ class Pair(object):
             return fmt(r, None)
         if kind == 'close':
             if isinstance(s, T.DataLinkConnection):
-                p, r = S.start_pending('close', i, s.recv_ready, lambda: llc.close(s))
+                p, r = S.start_pending('close', i, s.recv_ready, lambda: w.close())
                 if r is None:
                     S.pending[i] = p
                     return 'ok pending'
                 return fmt(r, 'unit')
-            return fmt(classify(lambda: llc.close(s)), 'unit')
+            return fmt(classify(lambda: w.close()), 'unit')
         raise ValueError(op)
 
     # ---- the link
